@@ -778,6 +778,15 @@ where
         self.publish_send_max = None;
         self.publish_send_count = 0;
 
+        // ... and so do the own Receive Maximum with its bookkeeping and the keep-alive values:
+        // whatever arrives on the next transport ahead of the CONNECT / CONNACK exchange must not
+        // be judged by them (initialize() only runs once that CONNECT is processed)
+        self.publish_recv_max = None;
+        self.publish_recv.clear();
+        self.pingreq_keep_alive_ms = 0;
+        self.pingreq_server_keep_alive_ms = None;
+        self.pingreq_recv_timeout_ms = 0;
+
         // Drop a partially received frame: it belongs to the transport that was just closed
         self.packet_builder.reset();
 
